@@ -200,6 +200,9 @@ def run(tier):
     # every "#..." string over the alphabet of spec/HexLex.tla (hex colour or plain string), both quotes in and out
     from .. import hexlex
     hexlex.run(ck, "C01", tier, loads, impl.dumper)
+    # every /regex/[i] lexeme over the alphabet of spec/RegexLex.tla after EXPRESSION and FILTER, both output quotes
+    from .. import regexlex
+    regexlex.run(ck, "C01", tier, loads, impl.dumper)
     verdicts = tracecheck.validate("TraceRoundTrip", records, "c01", ck=ck, chunk=800, canary=canary)
     skipped = 0
     for tid, v in verdicts.items():
